@@ -224,6 +224,60 @@ SetField(st, m, v) ==
   ELSE IF m = 0 THEN [st EXCEPT !.rec = RecSet0(st.rec, ToStr(v)), !.ftag = {}, !.ltag = TRUE]
   ELSE [st EXCEPT !.rec = RecSetField(st.rec, m, ToStr(v)), !.ftag = @ \cup {m}, !.ltag = TRUE]
 
+\* ------------------------------------------------- sub/gsub and printf text
+\* replacement text for one match: & is the matched text, \& a literal ampersand, \\ a backslash
+RECURSIVE ExpandRepl(_, _)
+ExpandRepl(rp, matched) ==
+  IF rp = <<>> THEN <<>>
+  ELSE IF rp[1] = AMP THEN matched \o ExpandRepl(Tail(rp), matched)
+  ELSE IF rp[1] = BSL /\ Len(rp) >= 2 /\ rp[2] \in {AMP, BSL} THEN <<rp[2]>> \o ExpandRepl(SubSeq(rp, 3, Len(rp)), matched)
+  ELSE <<rp[1]>> \o ExpandRepl(Tail(rp), matched)
+
+\* <<new string, number of replacements>>: all (gsub) or the first (sub) of the non-overlapping
+\* leftmost-longest matches
+Substitute(re, rp, str, global) ==
+  LET all == FindAll(re, str)
+      ms == IF global \/ all = <<>> THEN all ELSE <<all[1]>>
+      nm == Len(ms)
+      Gap(j) == SubSeq(str, IF j = 1 THEN 1 ELSE ms[j - 1][2], IF j = nm + 1 THEN Len(str) ELSE ms[j][1] - 1)
+      RECURSIVE Build(_)
+      Build(j) == IF j > nm THEN Gap(nm + 1)
+                  ELSE Gap(j) \o ExpandRepl(rp, SubSeq(str, ms[j][1], ms[j][2] - 1)) \o Build(j + 1)
+  IN <<Build(1), nm>>
+
+\* printf/sprintf for the directives %d %s %c(har of a string) %% with optional '-' and width;
+\* anything else is outside this model.  Returns bytes, or <<0 - 1>> for "outside the model",
+\* or <<0 - 2>> for a run-time error (too few arguments).
+PadTo(txt, width, left) ==
+  IF Len(txt) >= width THEN txt
+  ELSE LET pad == [j \in 1..(width - Len(txt)) |-> SP] IN IF left THEN txt \o pad ELSE pad \o txt
+FmtBad == <<0 - 1>>
+FmtErr == <<0 - 2>>
+RECURSIVE FormatFrom(_, _, _, _)
+FormatFrom(fm, k, vals, ai) ==
+  IF k > Len(fm) THEN <<>>
+  ELSE IF fm[k] # PCT THEN
+         LET rest == FormatFrom(fm, k + 1, vals, ai)
+         IN IF rest = FmtBad \/ rest = FmtErr THEN rest ELSE <<fm[k]>> \o rest
+  ELSE IF k = Len(fm) THEN FmtBad
+  ELSE IF fm[k + 1] = PCT THEN
+         LET rest == FormatFrom(fm, k + 2, vals, ai)
+         IN IF rest = FmtBad \/ rest = FmtErr THEN rest ELSE <<PCT>> \o rest
+  ELSE LET left == fm[k + 1] = MINUS
+           ws == IF left THEN k + 2 ELSE k + 1
+           dr == DigitRun(fm, ws, 0, 0)
+           vk == dr[2]
+       IN IF vk > Len(fm) \/ fm[vk] \notin {c_d, c_s} \/ dr[3] > 2 THEN FmtBad
+          ELSE IF ai > Len(vals) THEN FmtErr
+          ELSE LET v == vals[ai]
+                   txt == IF fm[vk] = c_s THEN ToStr(v)
+                          ELSE IF ToNum(v) = BADN THEN FmtBad ELSE IntStr(ToNum(v))
+                   rest == FormatFrom(fm, vk + 1, vals, ai + 1)
+               IN IF txt = FmtBad THEN FmtBad
+                  ELSE IF rest = FmtBad \/ rest = FmtErr THEN rest
+                  ELSE PadTo(txt, dr[1], left) \o rest
+Format(fm, vals) == FormatFrom(fm, 1, vals, 1)
+
 \* ------------------------------------------------------------- expressions
 RECURSIVE Eval(_, _), EvalArgs(_, _, _), Subscript(_, _), LvRead(_, _, _), LvWrite(_, _, _, _), LvKey(_, _),
           Exec(_, _), ExecList(_, _), Loop(_, _, _, _, _), ForIn(_, _, _, _, _), CallUser(_, _, _), BindArgs(_, _, _, _, _, _),
@@ -364,6 +418,16 @@ Eval(e, st) ==
                     ELSE LET nv == IF e.op = "++" THEN x + 1 ELSE x - 1
                          IN IF ~InRange(nv) THEN <<Null, Halt(old[2], "bad")>>
                             ELSE <<Num(IF e.pre THEN nv ELSE x), LvWrite(kk[1], old[2], Num(nv), 0)>>
+    [] e.k = "re0" -> <<Bool(Matches(e.re, st.rec.line)), st>>        \* a bare /re/ is $0 ~ /re/
+    [] e.k = "subst" ->           \* sub / gsub (re, repl, target); target index first, then the replacement
+         LET kk == LvKey(e.lv, st)
+         IN IF ~Live(kk[2]) THEN <<Null, kk[2]>>
+            ELSE LET old == LvRead(kk[1], kk[2], TRUE)
+                     rp == Eval(e.repl, old[2])
+                 IN IF ~Live(rp[2]) THEN <<Null, rp[2]>>
+                    ELSE LET res == Substitute(e.re, ToStr(Norm(rp[1])), ToStr(Norm(old[1])), e.global)
+                         IN IF res[2] = 0 /\ kk[1].k = "field" THEN <<Num(0), rp[2]>>     \* no match: the record is left alone
+                            ELSE <<Num(res[2]), LvWrite(kk[1], rp[2], Str(res[1]), 0)>>
     [] e.k = "call" -> CallUser(e.f, e.args, st)
     [] e.k = "bi" -> BuiltinCall(e.f, e.args, st)
 
@@ -388,6 +452,14 @@ BuiltinCall(f, args, st) ==
          IN IF ~Live(r[2]) THEN <<Null, r[2]>>
             ELSE LET str == ToStr(Norm(r[1][1])) pat == ToStr(Norm(r[1][2]))
                  IN IF pat = <<>> THEN <<Null, Halt(r[2], "bad")>> ELSE <<Num(FirstOcc(str, pat, 1)), r[2]>>
+    [] f = "sprintf" ->
+         LET r == EvalArgs(args, st, <<>>)
+         IN IF ~Live(r[2]) THEN <<Null, r[2]>>
+            ELSE LET vals == [j \in 1..Len(r[1]) |-> Norm(r[1][j])]
+                     txt == Format(ToStr(vals[1]), Tail(vals))
+                 IN IF txt = FmtBad THEN <<Null, Halt(r[2], "bad")>>
+                    ELSE IF txt = FmtErr THEN <<Null, Halt(r[2], "err")>>
+                    ELSE <<Str(txt), r[2]>>
     [] f = "int" ->
          LET r == Eval(args[1], st) m == NumOf(r[1])
          IN IF ~Live(r[2]) THEN r ELSE IF m = BADN THEN <<Null, Halt(r[2], "bad")>> ELSE <<Num(m), r[2]>>
@@ -491,6 +563,14 @@ Exec(s, st0) ==
               IN IF ~Live(r[2]) THEN r[2]
                  ELSE Emit(r[2], Join([j \in 1..Len(r[1]) |-> ToStr(Norm(r[1][j]))], ToStr(GetVar(r[2], "OFS")))
                                  \o ToStr(GetVar(r[2], "ORS")))
+    [] s.k = "printf" ->
+         LET r == EvalArgs(s.args, st, <<>>)
+         IN IF ~Live(r[2]) THEN r[2]
+            ELSE LET vals == [j \in 1..Len(r[1]) |-> Norm(r[1][j])]
+                     txt == Format(ToStr(vals[1]), Tail(vals))
+                 IN IF txt = FmtBad THEN Halt(r[2], "bad")
+                    ELSE IF txt = FmtErr THEN Halt(r[2], "err")
+                    ELSE Emit(r[2], txt)
     [] s.k = "if" ->
          LET cr == CondOf(s.c, st)
          IN IF ~Live(cr[2]) THEN cr[2] ELSE IF cr[1] THEN ExecList(s.t, cr[2]) ELSE ExecList(s.f, cr[2])
